@@ -252,6 +252,8 @@ type vC07RRSpec struct {
 	ip      []byte   // A / AAAA
 	target  vC07Name // NS / CNAME / DNAME
 	covered uint16   // RRSIG
+	// RRSIG: Labels = label count of the owner + labelsDelta (a negative delta is what a wildcard expansion looks like)
+	labelsDelta int
 }
 
 func (s vC07RRSpec) coq() string {
@@ -274,7 +276,7 @@ func (s vC07RRSpec) String() string {
 	case dns.TypeNS, dns.TypeCNAME, dns.TypeDNAME:
 		return fmt.Sprintf("%s %d %s %s %s", s.owner, s.ttl, dns.ClassToString[s.class], dns.TypeToString[s.rrtype], s.target)
 	case dns.TypeRRSIG:
-		return fmt.Sprintf("%s %d RRSIG(%s)", s.owner, s.ttl, dns.TypeToString[s.covered])
+		return fmt.Sprintf("%s %d RRSIG(%s) labels=%d%+d", s.owner, s.ttl, dns.TypeToString[s.covered], len(s.owner), s.labelsDelta)
 	}
 	return fmt.Sprintf("%s %d %s", s.owner, s.ttl, dns.TypeToString[s.rrtype])
 }
@@ -295,7 +297,11 @@ func (s vC07RRSpec) rr() dns.RR {
 	case dns.TypeSOA:
 		return &dns.SOA{Hdr: h, Ns: "ns.", Mbox: "h.", Serial: 1, Refresh: 1, Retry: 1, Expire: 1, Minttl: 1}
 	case dns.TypeRRSIG:
-		return &dns.RRSIG{Hdr: h, TypeCovered: s.covered, Algorithm: 13, Labels: uint8(len(s.owner)), OrigTtl: s.ttl, Expiration: 2000000000, Inception: 1000000000, KeyTag: 1, SignerName: ".", Signature: "AAAA"}
+		lb := len(s.owner) + s.labelsDelta
+		if lb < 0 {
+			lb = 0
+		}
+		return &dns.RRSIG{Hdr: h, TypeCovered: s.covered, Algorithm: 13, Labels: uint8(lb), OrigTtl: s.ttl, Expiration: 2000000000, Inception: 1000000000, KeyTag: 1, SignerName: ".", Signature: "AAAA"}
 	case dns.TypeDS:
 		return &dns.DS{Hdr: h, KeyTag: 1, Algorithm: 13, DigestType: 2, Digest: "00"}
 	case dns.TypeNSEC:
